@@ -177,6 +177,10 @@ def run(R, tier, configs=("dflt",)):
         R.check(not bad["<other>"], "R08.3", "%s:other-character-data" % fty, "any other character data (near misses, numeric suffix, partial long form) -> -104", "character data that is not one of the five keywords is accepted: %s" % "; ".join(bad["<other>"][:5]), where=b.span)
         R.count("keyword_evaluations_%s" % fty, n_kw)
 
+    # ---- R08.5 the lexer hands the complete literal to the conversion (any mantissa / exponent length) -----------------
+    from . import lexer as LX
+    LX.check_elements(R, "R08.5", ("decimal",))
+
     # ---- R08.4 boolean ---------------------------------------------------------------------------------------------
     bs = [b for ty, b in C.conversions(u) if ty == "bool"]
     if len(bs) != 1:
